@@ -373,7 +373,29 @@ def harness(cfg, ns):
 
 # ---------------------------------------------------------------------------------------------
 def replay(case):
-    """The real command line against the API on a real file, same seed and options; all three outputs."""
+    """The real command line against the API on real files, same seed and options; all three outputs.  Option values: one generic
+    set, plus - when the solver's model sits on alpha == 0 or beta == 0 - the same set with that weight at zero (a weight of
+    exactly zero is the one value of these options that can change which code runs)."""
+    if case.get("kind") != "cli":
+        return _replay_one(case)
+    sets = [(2.0, 1.5, 0.75)]
+    try:
+        if Fraction(case.get("beta", "1")) == 0:
+            sets.append((2.0, 0.0, 0.75))
+        if Fraction(case.get("alpha", "1")) == 0:
+            sets.append((0.0, 1.5, 0.75))
+    except (ValueError, ZeroDivisionError):
+        pass
+    last = None
+    for abd in sets:
+        last = _replay_one(case, abd)
+        if last.get("reproduced"):
+            last["detail"] = f"[-a {abd[0]} -b {abd[1]} -e {abd[2]}] " + str(last.get("detail"))
+            return last
+    return last
+
+
+def _replay_one(case, abd=(2.0, 1.5, 0.75)):
     import io
     import json
     import os
@@ -392,7 +414,7 @@ def replay(case):
     bad = []
     try:
         # numeric labels so that every categorical dissimilarity applies
-        alpha, beta, delta, prec, n = 2.0, 1.5, 0.75, 0.2, 3
+        (alpha, beta, delta), prec, n = abd, 0.2, 3
         argv0 = [src, "--seed", "17", "-a", str(alpha), "-b", str(beta), "-e", str(delta), "-p", str(prec), "-n", str(n), "-d", case["cd"], "-c", "-k"]
         if case.get("mathet"):
             argv0.append("-m")
